@@ -131,7 +131,35 @@ def precision_rule(repo, res):
         raise AnalysisError("float_to_str: only %d formatting constructs recognised (2 confirmed by hand)" % n)
 
 
+def loop_variable_rule(repo, res, RULE, rel=None):
+    """every loop of the XML reader over elements found in the document (`findall`, `iter`, children) reads its loop
+    variable: a body that looks the element up again on the parent (`parent.find(tag)`) reads the *first* such element
+    once per round, so all but the first are lost (shared with C08: a goal given by several lanelets)."""
+    rmod = repo.mod(rel or "commonroad/common/reader/file_reader_xml.py")
+    n = 0
+    for fdef in [x for x in ast.walk(rmod.tree) if isinstance(x, ast.FunctionDef)]:
+        loops = [x for x in walk_no_nested(fdef) if isinstance(x, (ast.For, ast.ListComp, ast.SetComp, ast.GeneratorExp, ast.DictComp))]
+        for lp in loops:
+            gens = [(lp.target, lp.iter, lp.body)] if isinstance(lp, ast.For) else [(g.target, g.iter, [lp]) for g in lp.generators]
+            for tgt, it, body in gens:
+                if not any(isinstance(c, ast.Call) and isinstance(c.func, ast.Attribute) and c.func.attr in ("findall", "iter", "iterchildren", "iterfind", "getchildren") for c in ast.walk(it)):
+                    continue
+                names = [x.id for x in ast.walk(tgt) if isinstance(x, ast.Name) and not x.id.startswith("_")]
+                if not names:
+                    continue
+                n += 1
+                used = {x.id for b in body for x in ast.walk(b) if isinstance(x, ast.Name) and isinstance(x.ctx, ast.Load)} - ({x.id for x in ast.walk(it) if isinstance(x, ast.Name)} if not isinstance(lp, ast.For) else set())
+                if not isinstance(lp, ast.For):
+                    used = {x.id for x in ast.walk(lp.elt if not isinstance(lp, ast.DictComp) else ast.Tuple(elts=[lp.key, lp.value], ctx=ast.Load())) if isinstance(x, ast.Name)} | {x.id for g in lp.generators for c in g.ifs for x in ast.walk(c) if isinstance(x, ast.Name)}
+                ok = any(nm in used for nm in names)
+                res.check(RULE, "%s: the loop over %s reads its element" % (rmod.qualname(fdef), norm(it)[:50]), ok, rmod, lp, "%s: loop over %s never reads %s" % (rmod.qualname(fdef), norm(it)[:60], "/".join(names)), "every round of the loop reads the same thing (the first matching element of the parent): the other elements of the file are lost", qualname=rmod.qualname(fdef))
+    if n < 20:
+        raise AnalysisError("only %d element loops found in the XML reader (20+ confirmed)" % n)
+
+
 def run(repo, res, tier):
+    res.rule("RT-LOOPVAR", "loops of the reader over document elements read their loop variable", 20)
+    loop_variable_rule(repo, res, "RT-LOOPVAR")
     res.rule("RT-READ", "every emitted element / attribute / text is looked up by the reader as the same kind at the same place", 120)
     res.rule("RT-GUARD", "whether a value is written depends on that value only, not on a sibling attribute", 100)
     res.rule("RT-STATE", "no mutable default argument is changed or handed out in the XML reader / writer", 1)
